@@ -178,7 +178,19 @@ def step(op, n, created, last, now, d1, t, max_age):
     return "ok"
 
 
-def handler_step(op, n, created, last, now, d1, t):
+def pick_req_id(i):
+    if i == 0:
+        return 1
+    if i == 1:
+        return 0
+    if i == 2:
+        return "init-1"
+    if i == 3:
+        return ""
+    return -5
+
+
+def handler_step(op, n, created, last, now, d1, t, idsel=0):
     """initialize / request-with-session-id through the protocol handler"""
     _ctr[0] = 0
     h = PH.ProtocolHandler(SERVER_INFO, SERVER_CAPS)
@@ -188,7 +200,7 @@ def handler_step(op, n, created, last, now, d1, t):
     CLOCK.set([now, now + d1])
     tid = _target(n, t)
     if op == "initialize" or op == "initialize_sid":
-        msg = JM.JSONRPCMessage(jsonrpc="2.0", id=1, method="initialize",
+        msg = JM.JSONRPCMessage(jsonrpc="2.0", id=pick_req_id(idsel), method="initialize",
                                 params={"protocolVersion": "2025-03-26", "clientInfo": {"name": "cli", "version": "9"}, "capabilities": {}})
         # a (re-)initialize may arrive on a connection that already carries a session id - live or not
         resp, sid = drive(h.handle_message(msg, tid if op == "initialize_sid" else None))
